@@ -140,14 +140,15 @@ PROPERTIES = {
     },
     'C18': {
         'quick': ['rankc_fwd_n3', 'rank_fwd_n4'],
-        'thorough': ['rankv_n2', 'rankc_fwd_n3', 'rankc_n3', 'rankv_fwd_n3', 'rankv_n3', 'rank_n4', 'rank_fwd_n4'],
-        'functions': ['RankCalc::calc with the verif_hooks pop counter'],
-        'bounds': {'graphs': 'symbolic as for C13; n = 3 (all ordered pairs) and n = 4 (forward pairs; thorough: all ordered pairs)', 'unwind': 'n = 3: n*n+2 = 11, so that every run in which no function is popped more than n times runs to the assertion; n = 4: 2^(n-1)+2 = 10 (what the current algorithm needs; a change that needs more is reported as inconclusive, not as held)'},
-        'outside': ['n >= 5: the smallest size at which walking every path exceeds n visits per function (2^(n-2) = 8 > 5) exhausts the solver memory here (2.0 M program steps, > 30 GB); see DESIGN.md C18', 'work of the other build stages'],
-        'assumptions': [M_DAGGY, STUB_VD, M_FLAGS, M_REPLAY],
-        'claim': 'For every DAG in the bound no function is popped from the rank queue more often than there are functions.',
-        'note': 'At n <= 4 the path-walking algorithm still meets the bound (4 pops of the last node of the complete DAG); the refuting size n = 5 is outside what the solver finished. The check therefore confirms the bound only where the current code meets it.',
+        'thorough': ['rankv_n2', 'rankc_fwd_n3', 'rankc_n3', 'rankv_fwd_n3', 'rankv_n3', 'rank_n4', 'rank_fwd_n4', 'rankc_fwd_n5'],
+        'functions': ['RankCalc::calc with the verif_hooks pop counter (rank*, rankv*) / with the per-pop oracle inside the VecDeque stub (rankc*)'],
+        'bounds': {'graphs': 'symbolic: every ordered (fwd: forward) pair of n functions absent / Logic / Contains; quick n = 3 (forward) and n = 4 (forward); thorough also n = 2, n = 3 and n = 4 all ordered pairs, and n = 5 forward (10 symbolic slots)', 'unwind': 'rank*: 2^(n-1)+2; rankv*: n*n+2; rankc_fwd_n3: 8; rankc_fwd_n5: 16'},
+        'outside': ['more than 5 functions', 'work of the other build stages', 'a change that needs more loop iterations than the unwind bound without exceeding n pops of one function within it is reported as inconclusive, not as held'],
+        'assumptions': [M_DAGGY, STUB_VD + '; rankc*: the stub also counts pops per function id and asserts the C18 bound at each pop', M_FLAGS, M_REPLAY],
+        'claim': 'For every DAG in the bound no function is popped from the rank queue more often than there are functions. The n = 5 query (thorough) is the one that refuted the original path-walking algorithm (finding F2, fixed by /repo 85995a5).',
+        'note': 'quick (n <= 4) alone cannot see an exponential algorithm: at n <= 4 even walking every path stays within n pops; the thorough tier (n = 5, ~45 min, ~35 GB) can.',
     },
+
 }
 
 PROPERTIES['C14'] = {
